@@ -216,8 +216,6 @@ def case_solve(ctx, rng, idx):
         if name != "altmin":
             opts.append("alt_min")
         init = str(rng.choice(opts))
-        if init == "svd" and any(Nr[k] != Nt[k] for k in range(K)):
-            init = "random"     # the svd initialisation is written for Nr == Nt
         s.initialize_with = init
         s.max_iterations = int(rng.choice([1, 2, 5, 20, 60]))
         if init == "fix":
@@ -347,9 +345,13 @@ def case_stream_search(ctx, rng, idx):
         # stream of a user with hardly any power, inside the wrapper's search
         name = ["maxsinr", "mmse"][int(rng.integers(0, 2))]
         K, M, ns = 3, int(rng.integers(3, 5)), 2
-    Nr, Nt = [M] * K, [M] * K
-    if wrapper == "greedy" and M >= 3 and rng.random() < 0.6:
+    if wrapper == "greedy" and not weak and M >= 3 and rng.random() < 0.6:
         ns = int(rng.integers(2, M))                  # room for stream reduction
+    Nr, Nt = [M] * K, [M] * K
+    if not weak and M >= 3 and rng.random() < 0.3:
+        # unequal antenna counts (at least ns + 1 everywhere)
+        Nr = [int(x) for x in rng.integers(ns + 1, M + 2, size=K)]
+        Nt = [int(x) for x in rng.integers(ns + 1, M + 2, size=K)]
     noise = float(10.0 ** rng.uniform(-4, 0))
     mu, Hkl = make_channel(rng, Nr, Nt, noise)
     s = SOLVERS[name](mu)
